@@ -67,7 +67,7 @@ func initEnv() {
 
 // Cleanup removes the per-process scratch directory.
 func Cleanup() {
-	if envBase != "" {
+	if envBase != "" && os.Getenv("XSIM_KEEP") == "" {
 		os.RemoveAll(envBase)
 	}
 }
